@@ -182,60 +182,30 @@ theorem delegation_nsec_sound (z : Zone) (hz : z.WF) (s : List Nsec) (hs : SetOK
   obtain ⟨a, ha, han, h1, h2⟩ := delegation_core (filter_genuine hz hs) h
   exact ⟨a, han ▸ find_of_mem hz ha, h1, h2⟩
 
-/-
-FULL STATEMENT (false of the model and of the code — see
-`nameError_nsec_full_fails` / `nameError_nsec_full_fails_ent` below):
-
-  nameError_nsec_sound :
-    ∀ (z) (hz : z.WF) (hroot : z.apex ≠ []) (s) (hs : SetOK z s) (q) (hq : z.apex <+: q) (t),
-      verifyNameErrorNSEC q (filterToZone z.apex s) = .ok () → z.answerClass q t = .nxdomain
--/
-
-/-- **`VerifyNameErrorNSEC`, partial.**  Sound for every zone other than the
-root, every selection of the chain plus out-of-zone pollution (filtered by
-`FilterRRsToZone` as `Resolver.authority` does) and every in-zone name (what
-`ValidateSigner` guarantees) PROVIDED the records it relies on are not
-misused in the two ways the function does not test:
-
-* `hmis`: no NSEC covering `q` is an ancestor delegation / DNAME of `q`
-  (owner strictly above `q`, bitmap NS-without-SOA or DNAME — RFC 6840 §4.1),
-  and none has its next name strictly below `q` (then `q` is an empty
-  non-terminal, which exists — RFC 8198 App. B, RFC 8020);
-* `hmisw`: the same second condition for the wildcard at the closest encloser.
-
-Missing from the full statement: exactly these two tests (and the root zone,
-where the function skips the wildcard proof). -/
-theorem nameError_nsec_sound_partial (z : Zone) (hz : z.WF) (hroot : z.apex ≠ []) (s : List Nsec)
+/-- **`VerifyNameErrorNSEC` is sound** (full strength, every zone other than
+the root): for every selection of the chain plus out-of-zone pollution
+(filtered by `FilterRRsToZone` as `Resolver.authority` does) and every in-zone
+name (what `ValidateSigner` guarantees), an accepted NXDOMAIN means the zone
+says NXDOMAIN — the name is not below a delegation or DNAME, is not an empty
+non-terminal, owns nothing, and the wildcard at its closest encloser neither
+exists nor is an empty non-terminal.  (Before commit 4841eb0 this held only
+under record-level hypotheses; the function now tests them itself:
+`nsecMisusedFor`, `nsecProvesENT`.)  The root zone is excluded because for a
+closest encloser "." the function skips the wildcard proof. -/
+theorem nameError_nsec_sound (z : Zone) (hz : z.WF) (hroot : z.apex ≠ []) (s : List Nsec)
     (hs : SetOK z s) (q : Name) (hq : z.apex <+: q) (t : Nat)
-    (hmis : ∀ r ∈ filterToZone z.apex s, nsecCovers r.owner r.next q = true →
-      ¬(isStrictSub q r.owner = true ∧ cutTypes r.types = true) ∧ isStrictSub r.next q = false)
-    (hmisw : ∀ c ∈ filterToZone z.apex s, nsecCovers c.owner c.next q = true →
-      ∀ r ∈ filterToZone z.apex s,
-        nsecCovers r.owner r.next (closestEncloserFromNSEC q c ++ [star]) = true →
-        isStrictSub r.next (closestEncloserFromNSEC q c ++ [star]) = false)
     (h : verifyNameErrorNSEC q (filterToZone z.apex s) = .ok ()) : z.answerClass q t = .nxdomain :=
-  nameError_core hz hroot (filter_genuine hz hs) hq hmis hmisw t h
+  nameError_core hz hroot (filter_genuine hz hs) hq t h
 
-/-
-FULL STATEMENT (false, see `nodata_nsec_full_fails`):
-
-  nodata_nsec_sound :
-    ∀ (z) (hz : z.WF) (s) (hs : SetOK z s) (q) (hq : z.apex <+: q) (t),
-      verifyNODATANSEC q t (filterToZone z.apex s) = .ok () → z.answerClass q t = .nodata
--/
-
-/-- **`VerifyNODATANSEC`, partial.**  Sound (exact-owner and wildcard NODATA,
-CNAME bit, DS-vs-SOA rule) PROVIDED the exact-owner record is not a
-delegation point's NSEC used for a type other than DS (RFC 6840 §4.1: the
-parent's NSEC says nothing about the child's data at that name).  Missing
-from the full statement: exactly that test. -/
-theorem nodata_nsec_sound_partial (z : Zone) (hz : z.WF) (s : List Nsec) (hs : SetOK z s)
+/-- **`VerifyNODATANSEC` is sound** (full strength): exact-owner and wildcard
+NODATA, CNAME bit, DS-vs-SOA rule, and a delegation point's record only for
+DS (RFC 6840 §4.1). -/
+theorem nodata_nsec_sound (z : Zone) (hz : z.WF) (s : List Nsec) (hs : SetOK z s)
     (q : Name) (hq : z.apex <+: q) (t : Nat)
-    (hdel : ∀ r ∈ filterToZone z.apex s, r.owner = q → t = tDS ∨ delegTypes r.types = false)
     (h : verifyNODATANSEC q t (filterToZone z.apex s) = .ok ()) : z.answerClass q t = .nodata :=
-  nodata_core hz (filter_genuine hz hs) hq t hdel h
+  nodata_core hz (filter_genuine hz hs) hq t h
 
-/-! ### the counter-witnesses (the full statements are false) -/
+/-! ### the former counter-witnesses (fixed in /repo by 4841eb0) are now refused -/
 
 def L (s : String) : Label := s.toList.map Char.toNat
 
@@ -255,21 +225,6 @@ theorem wzone_wf : wzone.WF where
   in_zone := by decide
   nodup := by decide
 
-/-- **The full NXDOMAIN statement is false (ancestor delegation).**  Given
-only the genuine NSEC of the delegation `sub.example.` the validator accepts
-NXDOMAIN for `a.sub.example.`, a name below the zone cut that the parent
-cannot deny; the RFC 8198 classifier refuses the same input. -/
-theorem nameError_nsec_full_fails :
-    wzone.WF ∧ wrec ∈ wzone.chain ∧ SetOK wzone [wrec] ∧ wzone.apex <+: [L "example", L "sub", L "a"] ∧
-    verifyNameErrorNSEC [L "example", L "sub", L "a"] (filterToZone wzone.apex [wrec]) = .ok () ∧
-    wzone.answerClass [L "example", L "sub", L "a"] 1 = .delegated ∧
-    evaluateAggressiveNSEC [L "example", L "sub", L "a"] 1 1 wzone.apex [wrec] = .error .badDelegation := by
-  refine ⟨wzone_wf, by decide, ?_, by decide, by decide, by decide, by decide⟩
-  intro r hr
-  rw [List.mem_singleton] at hr
-  subst hr
-  exact Or.inl (by decide)
-
 /-- `example.` with `a.b.example.` (so `b.example.` is an empty non-terminal) -/
 def ezone : Zone :=
   { apex := [L "example"], cls := 1,
@@ -284,26 +239,18 @@ theorem ezone_wf : ezone.WF where
   in_zone := by decide
   nodup := by decide
 
-/-- **The full NXDOMAIN statement is false (empty non-terminal).**  The single
-genuine record `example. NSEC a.b.example.` makes the validator accept
-NXDOMAIN for `b.example.`, which exists as an empty non-terminal; the
-classifier answers NODATA from the same record. -/
-theorem nameError_nsec_full_fails_ent :
-    ezone.WF ∧ erec ∈ ezone.chain ∧ ezone.apex <+: [L "example", L "b"] ∧
-    verifyNameErrorNSEC [L "example", L "b"] (filterToZone ezone.apex [erec]) = .ok () ∧
-    ezone.answerClass [L "example", L "b"] 1 = .nodata ∧
-    evaluateAggressiveNSEC [L "example", L "b"] 1 1 ezone.apex [erec] = .ok (.nodata, [0]) :=
-  ⟨ezone_wf, by decide, by decide, by decide, by decide, by decide⟩
-
-/-- **The full NODATA statement is false (delegation point).**  The genuine
-NSEC of the delegation `sub.example.` makes the validator accept NODATA for
-`sub.example. A`, although data at a delegation point belongs to the child. -/
-theorem nodata_nsec_full_fails :
-    wrec ∈ wzone.chain ∧
-    verifyNODATANSEC [L "example", L "sub"] 1 (filterToZone wzone.apex [wrec]) = .ok () ∧
-    wzone.answerClass [L "example", L "sub"] 1 = .delegated ∧
-    evaluateAggressiveNSEC [L "example", L "sub"] 1 1 wzone.apex [wrec] = .error .badDelegation :=
-  ⟨by decide, by decide, by decide, by decide⟩
+-- ancestor delegation: `a.sub.example.` from the delegation NSEC alone (the zone says "delegated")
+example : wrec ∈ wzone.chain ∧ wzone.answerClass [L "example", L "sub", L "a"] 1 = .delegated ∧
+    verifyNameErrorNSEC [L "example", L "sub", L "a"] (filterToZone wzone.apex [wrec]) = .error .badDelegation ∧
+    evaluateAggressiveNSEC [L "example", L "sub", L "a"] 1 1 wzone.apex [wrec] = .error .badDelegation := by decide
+-- data at the delegation point: `sub.example. A`
+example : wzone.answerClass [L "example", L "sub"] 1 = .delegated ∧
+    verifyNODATANSEC [L "example", L "sub"] 1 (filterToZone wzone.apex [wrec]) = .error .badDelegation ∧
+    verifyNODATANSEC [L "example", L "sub"] 43 (filterToZone wzone.apex [wrec]) = .ok () := by decide
+-- empty non-terminal: `b.example.` from `example. NSEC a.b.example.` (the zone says NODATA)
+example : erec ∈ ezone.chain ∧ ezone.answerClass [L "example", L "b"] 1 = .nodata ∧
+    verifyNameErrorNSEC [L "example", L "b"] (filterToZone ezone.apex [erec]) = .error .missing ∧
+    evaluateAggressiveNSEC [L "example", L "b"] 1 1 ezone.apex [erec] = .ok (.nodata, [0]) := by decide
 
 /-! ### non-vacuity: the hypotheses of the theorems above are satisfiable -/
 
@@ -315,12 +262,12 @@ example : wzone.answerClass [L "example", L "b"] 1 = .nxdomain :=
   (aggressive_nsec_sound wzone wzone_wf wzone.chain wzone_chain_ok [L "example", L "b"] 1 1 .nxdomain [0]
     (by decide)).2.2.1 rfl
 example : wzone.answerClass [L "example", L "b"] 1 = .nxdomain :=
-  nameError_nsec_sound_partial wzone wzone_wf (by decide) wzone.chain wzone_chain_ok [L "example", L "b"]
-    (by decide) 1 (by decide) (by decide) (by decide)
+  nameError_nsec_sound wzone wzone_wf (by decide) wzone.chain wzone_chain_ok [L "example", L "b"]
+    (by decide) 1 (by decide)
 -- … NODATA for `zzz.example. AAAA`, and the insecure delegation `sub.example.`
 example : wzone.answerClass [L "example", L "zzz"] 28 = .nodata :=
-  nodata_nsec_sound_partial wzone wzone_wf wzone.chain wzone_chain_ok [L "example", L "zzz"] (by decide) 28
-    (by decide) (by decide)
+  nodata_nsec_sound wzone wzone_wf wzone.chain wzone_chain_ok [L "example", L "zzz"] (by decide) 28
+    (by decide)
 example : ∃ n, wzone.find [L "example", L "sub"] = some n ∧ delegTypes n.types = true ∧ tDS ∉ n.types :=
   delegation_nsec_sound wzone wzone_wf wzone.chain wzone_chain_ok [L "example", L "sub"] (by decide)
 -- a covering record and the closest encloser it yields (an empty non-terminal counts)
